@@ -110,7 +110,7 @@ type Sched struct {
 	SpinSwitches int
 	StepCap      int64
 	opStart      int64 // step count at the last operation boundary (the cap applies per operation when boundaries are marked)
-	LockAcq      int // total modelled lock acquisitions in this run
+	LockAcq      int   // total modelled lock acquisitions in this run
 
 	// verdict
 	Verdict int
@@ -649,6 +649,51 @@ func BeforeUnlock(p any, read bool, site int) {
 			s.blockedOn[i] = 0
 		}
 	}
+}
+
+// CondOp is installed as s2.VerifCondFn: the model of sync.Cond. op 0 = Wait (the caller has
+// released the Cond's lock in the model and for real, and takes it again afterwards): the task is
+// parked in the simulator until some task signals this Cond, so that waiters do not pass the lock
+// among themselves for ever while the task they wait for never gets it. op 1 = Signal/Broadcast:
+// every task parked on this Cond becomes runnable (for Signal that is more than required, i.e.
+// wake-ups without a signal for the others, which waiters of a Cond must tolerate). If every task
+// is parked, that is a deadlock verdict (a lost wake-up). Outside a burst, and on goroutines that
+// are not simulated tasks, Wait returns at once (a wake-up without a signal).
+//
+//go:norace
+func CondOp(c any, op int, site int) {
+	s := &S
+	if !s.active {
+		return
+	}
+	self := s.cur
+	if self < 0 || self >= s.n {
+		return
+	}
+	if g := getg(); g != 0 && s.taskG[self] != 0 && g != s.taskG[self] {
+		s.Foreign++
+		return
+	}
+	a := lockAddr(c) ^ 1 // (a Cond is never at the address of a mutex, the tag is belt and braces)
+	if op == 1 {
+		for i := 0; i < s.n; i++ {
+			if s.st[i] == stBlocked && s.blockedOn[i] == a {
+				s.st[i] = stReady
+				s.blockedOn[i] = 0
+			}
+		}
+		return
+	}
+	s.st[self] = stBlocked
+	s.blockedOn[self] = a
+	s.blockSite[self] = site
+	s.Blocks++
+	s.rec(EvBlock, self, site)
+	t := s.pick(self)
+	if t < 0 {
+		s.finish(self, VDeadlock, site)
+	}
+	s.switchTo(self, t)
 }
 
 // ---- single-goroutine guard: code run outside a simulated burst (world set-up, serial
